@@ -180,6 +180,8 @@ class Impl:
             res.append("ValueError")
         except Exception as e:  # noqa
             res.append(repr(e))
+        if not np.array_equal(vd, c * self.pat_d):
+            res[-1] = "set_solution_values modified its argument"
         vd[:] = GARBAGE
         ve = c * self.pat_e
         try:
@@ -189,6 +191,8 @@ class Impl:
             res.append("ValueError")
         except Exception as e:  # noqa
             res.append(repr(e))
+        if not np.array_equal(ve, c * self.pat_e):
+            res[-1] = "set_variable_values modified its argument"
         ve[:] = GARBAGE
         self.nops += 1
         return res
